@@ -47,7 +47,7 @@ for (m, p, v, tiers) in ((1, 1, 2, ('quick', 'thorough')), (1, 1, 1, ('quick', '
     tag = 'm%dp%d.v%d' % (m, p, v)
     d = ['MEL=%d' % m, 'PER=%d' % p, 'SAVE_VER=%d' % v]
     OBLIGATIONS.append(Ob('C15.save.guard.' + tag, 'C15', 'c/wopn_walk.c', entry='harness_save_guard', defines=d, unwind=130, tiers=tiers,
-                          timeout={'quick': 600, 'thorough': 2400},
+                          timeout={'quick': 1200, 'thorough': 2400}, cost=2 if m + p > 2 else 1,   # m9p1: 6 min of SAT (minisat; cadical and kissat take as long or longer)
                           desc='WOPN_SaveBankToMem on a forged %d+%d-bank value, every destination length below the needed size: refused, every written block inside the length, no byte at/after length written' % (m, p),
                           bounds='bank counts %d/%d, version %d, all lengths < needed' % (m, p, v), **WALK))
     OBLIGATIONS.append(Ob('C15.save.exact.' + tag, 'C15', 'c/wopn_walk.c', entry='harness_save_exact', defines=d, unwind=130, tiers=tiers,
